@@ -3,7 +3,7 @@
 # scratch worktree with the seed applied (never touches /repo's working tree); a detected seed must
 # still be detected.  Scratch: /tmp/regress (removed at the end).
 set -u
-R=/tmp/regress
+R=${REG_LANE:-/tmp/regress}
 rm -rf $R; mkdir -p $R
 git -C /repo worktree add --detach $R/repo HEAD -f >/dev/null 2>&1 || exit 2
 rsync -a --exclude target /verif/harness/ $R/harness/
@@ -18,5 +18,5 @@ for d in $seeds; do
   echo "$(basename $d) $by exit=$rc $(grep -E '^(VIOLATION|OK)' $R/log.txt | head -1 | cut -c1-110)" >> $R/result.txt
 done
 git -C $R/repo checkout -q -- .
-cp $R/result.txt /tmp/regress_result.txt
+cp $R/result.txt ${R}_result.txt
 git -C /repo worktree remove --force $R/repo; rm -rf $R
